@@ -7,8 +7,8 @@ Model of `src/aiu_trace_analyzer/pipeline/stats.py` (C12):
   `queue_hash(masked name, pid)` in first-seen (dict insertion) order, `update_min_ts` /
   `update_max_ts` with their initial values `1e30` / `0.0`;
 * `StatsExtractionContext.calculate_stats_using_event_duration` — calls, total, mean, median, min, max
-  (exact values: the `round(·, 3)` and the `%8.3f` printing are a tolerance of the correspondence, and
-  `statistics.stdev` is irrational, hence not in the model);
+  (exact values: the `round(·, 3)` and the `%8.3f` printing are a tolerance of the correspondence;
+  `statistics.stdev` is irrational, the model carries its square, the sample variance);
 * `StatsExtractionContext.drain` — per pid (ascending) the groups stable-sorted by total, descending
   (`sorted(..., reverse=True)` keeps first-seen order among equal totals), share
   `total / total_times[pid] * 100`, and the active row `total, elapsed = max_ts - min_ts, start, end,
@@ -112,6 +112,12 @@ def median (l : List Rat) : Rat :=
   let n := s.length
   if n % 2 = 1 then s.getD (n / 2) 0 else (s.getD (n / 2 - 1) 0 + s.getD (n / 2) 0) / 2
 
+/-- the square of `statistics.stdev` (sample variance, `n - 1` in the denominator); `0` for a single
+call, where the code writes `stdev = 0.0` without calling `statistics.stdev` -/
+def variance (l : List Rat) : Rat :=
+  if l.length ≤ 1 then 0
+  else (l.map (fun x => (x - mean l) * (x - mean l))).sum / ((l.length : Rat) - 1)
+
 def minL (l : List Rat) : Rat := l.foldl min (l.headD 0)
 def maxL (l : List Rat) : Rat := l.foldl max (l.headD 0)
 
@@ -127,6 +133,8 @@ structure Row where
   min : Rat
   max : Rat
   share : Rat
+  /-- StDev², exact -/
+  var : Rat
 
 structure ARow where
   pid : Int
@@ -152,7 +160,8 @@ def geTotal (a b : Grp) : Bool := decide (b.durs.sum ≤ a.durs.sum)
 
 def mkRow (tot : Rat) (g : Grp) : Row :=
   { pid := g.key.2, name := g.key.1, calls := g.durs.length, total := g.durs.sum, mean := mean g.durs,
-    median := median g.durs, min := minL g.durs, max := maxL g.durs, share := g.durs.sum / tot * 100 }
+    median := median g.durs, min := minL g.durs, max := maxL g.durs, share := g.durs.sum / tot * 100,
+    var := variance g.durs }
 
 def rowsOfPid (gs : List Grp) (p : Int) : List Row :=
   ((groupsOf gs p).mergeSort geTotal).map (mkRow (pidTotal gs p))
